@@ -109,6 +109,10 @@ type Header struct {
 
 // Load checks the Magic sequence and loads the header fields.
 func (h *Header) Load(buf []byte) error {
+	// magic (8) + length (4) + value size (8) + number of buckets (4) + version (1)
+	if len(buf) < 25 {
+		return fmt.Errorf("invalid header length")
+	}
 	// Use a magic byte sequence to bail fast when user passes a corrupted/unrelated stream.
 	if *(*[8]byte)(buf[:8]) != Magic {
 		return fmt.Errorf("not a radiance compactindex file")
